@@ -187,6 +187,31 @@ def _paths(c):
     paths["geo_set.graphml"] = lambda: spatial("geo_set", "graphml")
     paths["geo_set.pickle"] = lambda: spatial("geo_set", "pickle")
     paths["spatial.graphml"] = lambda: spatial("spatial", "graphml")
+
+    def climate(fmt):
+        """ClimateNetwork.save / Load (network file + grid file + similarity matrix file)."""
+        from pyunicorn.core import GeoGrid
+        from pyunicorn.climate import ClimateNetwork
+        d = tempfile.mkdtemp(prefix="pyu_c05_", dir="/var/tmp")
+        try:
+            files = (os.path.join(d, "net." + fmt), os.path.join(d, "grid.txt"), os.path.join(d, "sim.npy"))
+            lat = np.linspace(-60.0, 75.0, n) if n > 1 else np.array([10.0])
+            lon = np.linspace(-150.0, 170.0, n) if n > 1 else np.array([20.0])
+            grid = GeoGrid(np.arange(3.0), lat, lon, silence_level=3)
+            # a similarity matrix whose entries above 1/2 are exactly the links of the case
+            S = 0.25 + 0.5 * np.maximum(A, A.T) if not directed else 0.25 + 0.5 * A
+            np.fill_diagonal(S, 1.0)
+            net = ClimateNetwork(grid, S, threshold=0.5, directed=directed, node_weight_type=None, silence_level=3)
+            net.node_weights = w.copy()
+            if c["hasla"]:
+                net.set_link_attribute("w", la)
+            net.save(files, fileformat=fmt)
+            return ClimateNetwork.Load(files, fileformat=fmt, silence_level=3)
+        finally:
+            import shutil
+            shutil.rmtree(d, ignore_errors=True)
+
+    paths["climate.graphml"] = lambda: climate("graphml")
     return paths
 
 
